@@ -58,7 +58,45 @@ func compactAndWrite(buf *bytes.Buffer, dst []byte, src []byte, escape bool) err
 	return nil
 }
 
+// maxNestingDepth is the nesting depth beyond which a text is rejected, as in encoding/json and
+// in the decoder: the value functions below recurse once per level.
+const maxNestingDepth = 10000
+
+// checkNestingDepth scans src once and reports the first bracket that opens a level
+// deeper than maxNestingDepth. Brackets inside strings do not count.
+func checkNestingDepth(src []byte) error {
+	depth := 0
+	inString := false
+	for i := 0; i < len(src); i++ {
+		c := src[i]
+		if inString {
+			switch c {
+			case '\\':
+				i++ // the escaped character cannot end the string
+			case '"':
+				inString = false
+			}
+			continue
+		}
+		switch c {
+		case '"':
+			inString = true
+		case '{', '[':
+			depth++
+			if depth > maxNestingDepth {
+				return errors.ErrExceededMaxDepth(c, int64(i))
+			}
+		case '}', ']':
+			depth--
+		}
+	}
+	return nil
+}
+
 func compact(dst, src []byte, escape bool) ([]byte, error) {
+	if err := checkNestingDepth(src); err != nil {
+		return nil, err
+	}
 	buf, cursor, err := compactValue(dst, src, 0, escape)
 	if err != nil {
 		return nil, err
